@@ -138,6 +138,172 @@ theorem mem_hits (ov : Nat → Nat → Bool) (alive : List Nat) (tracks : List (
   · rintro ⟨hi, a, ha, hov⟩
     exact ⟨hi, by rw [ha]; exact hov⟩
 
+/-! #### one-to-one overlap relations are followed exactly -/
+
+/-- does the droplet that track `i` ended with at frame start overlap droplet `d`? -/
+def relB (ov : Nat → Nat → Bool) (old : List (Track τ)) (i d : Nat) : Bool :=
+  match lastOf old i with
+  | some a => ov a d
+  | none => false
+
+/-- droplets of the frame without any overlapping alive track -/
+def unmatched (ov : Nat → Nat → Bool) (alive : List Nat) (old : List (Track τ)) (ds : List Nat) : List Nat :=
+  ds.filter fun d => !(alive.any fun i => relB ov old i d)
+
+/-- loop invariant: after the droplets `done`, track `i` has been extended by `d` iff `i` is alive
+and overlaps `d`; the new tracks are the unmatched droplets, in order -/
+def OneInv (ov : Nat → Nat → Bool) (t : τ) (alive : List Nat) (old : List (Track τ)) (done : List Nat)
+    (cur : List (Track τ)) : Prop :=
+  ∃ ext fresh, cur = ext ++ fresh ∧ ext.length = old.length ∧
+    (∀ i (h : i < old.length) (h' : i < ext.length),
+        (ext[i] = old[i] ∧ ∀ d ∈ done, ¬ (i ∈ alive ∧ relB ov old i d = true)) ∨
+        (∃ d ∈ done, i ∈ alive ∧ relB ov old i d = true ∧ ext[i] = old[i] ++ [(d, t)])) ∧
+    fresh = (unmatched ov alive old done).map fun d => [(d, t)]
+
+theorem lastOf_old_eq (old : List (Track τ)) (i : Nat) (h : i < old.length) : lastOf old i = lastId old[i] := by
+  simp [lastOf, List.getD, List.getElem?_eq_getElem h]
+
+theorem procDroplet_one (ov : Nat → Nat → Bool) (alive : List Nat) (t : τ) (old : List (Track τ))
+    (done : List Nat) (cur : List (Track τ)) (d' : Nat)
+    (hal : ∀ i ∈ alive, i < old.length) (hnd : alive.Nodup)
+    (hno : ∀ d ∈ done, ov d d' = false)
+    (hfun : ∀ i ∈ alive, ∀ j ∈ alive, relB ov old i d' = true → relB ov old j d' = true → i = j)
+    (hinj : ∀ i ∈ alive, ∀ d ∈ done, relB ov old i d = true → relB ov old i d' = false)
+    (hinv : OneInv ov t alive old done cur) :
+    OneInv ov t alive old (done ++ [d']) (procDroplet ov alive t cur d') := by
+  obtain ⟨ext, fresh, rfl, hlen, hext, hfresh⟩ := hinv
+  -- the hit list is the list of alive tracks related to d'
+  have hhits : hits ov alive (ext ++ fresh) d' = alive.filter (fun i => relB ov old i d') := by
+    unfold hits
+    apply List.filter_congr
+    intro i hi
+    have hio := hal i hi
+    have hie : i < ext.length := by omega
+    rw [DV.C06.lastOf_append_left ext fresh i hie]
+    rcases hext i hio hie with ⟨he, _⟩ | ⟨d, hd, _, hr, he⟩
+    · rw [he, ← lastOf_old_eq old i hio]; rfl
+    · rw [he, DV.C06.lastId_snoc, hinj i hi d hd hr]
+      exact hno d hd
+  unfold procDroplet
+  rw [hhits]
+  have hfnd : (alive.filter (fun i => relB ov old i d')).Nodup := hnd.filter _
+  cases hL : alive.filter (fun i => relB ov old i d') with
+  | nil =>
+    -- no partner: new track
+    have hnone : ∀ i ∈ alive, relB ov old i d' = false := by
+      intro i hi
+      by_contra hc
+      have : i ∈ alive.filter (fun i => relB ov old i d') := List.mem_filter.mpr ⟨hi, by simpa using hc⟩
+      rw [hL] at this; cases this
+    refine ⟨ext, fresh ++ [[(d', t)]], by simp, hlen, ?_, ?_⟩
+    · intro j hj hj'
+      rcases hext j hj hj' with ⟨he, hn⟩ | ⟨d, hd, ha, hr, he⟩
+      · left
+        refine ⟨he, ?_⟩
+        intro d hd
+        rcases List.mem_append.mp hd with h | h
+        · exact hn d h
+        · have : d = d' := by simpa using h
+          rw [this]; intro ⟨ha, hr⟩; rw [hnone j ha] at hr; cases hr
+      · exact Or.inr ⟨d, by simp [hd], ha, hr, he⟩
+    · have hany : (alive.any fun i => relB ov old i d') = false := by
+        rw [List.any_eq_false]; intro i hi; simp [hnone i hi]
+      simp [unmatched, List.filter_append, hfresh, hany]
+  | cons i rest =>
+    cases rest with
+    | cons j rest' =>
+      -- two partners contradict the hypothesis that the relation is a function of the droplet
+      exfalso
+      have hi : i ∈ alive.filter (fun i => relB ov old i d') := by rw [hL]; simp
+      have hj : j ∈ alive.filter (fun i => relB ov old i d') := by rw [hL]; simp
+      have hij := hfun i (List.mem_filter.mp hi).1 j (List.mem_filter.mp hj).1
+        (by simpa using (List.mem_filter.mp hi).2) (by simpa using (List.mem_filter.mp hj).2)
+      rw [hL] at hfnd
+      simp [hij] at hfnd
+    | nil =>
+      have hi : i ∈ alive.filter (fun i => relB ov old i d') := by rw [hL]; simp
+      have hia := (List.mem_filter.mp hi).1
+      have hir : relB ov old i d' = true := by simpa using (List.mem_filter.mp hi).2
+      have hio := hal i hia
+      have hie : i < ext.length := by omega
+      have hnot : ext[i] = old[i] := by
+        rcases hext i hio hie with ⟨he, _⟩ | ⟨d, hd, _, hr, _⟩
+        · exact he
+        · rw [hinj i hia d hd hr] at hir; cases hir
+      have hother : ∀ j ∈ alive, j ≠ i → relB ov old j d' = false := by
+        intro j hj hne
+        by_contra hc
+        have : j ∈ alive.filter (fun i => relB ov old i d') := List.mem_filter.mpr ⟨hj, by simpa using hc⟩
+        rw [hL] at this
+        exact hne (by simpa using this)
+      refine ⟨ext.modify i (· ++ [(d', t)]), fresh, DV.C06.modify_append_left_aux _ ext fresh i hie,
+        by simpa using hlen, ?_, ?_⟩
+      · intro j hj hj'
+        have hj'' : j < ext.length := by simpa using hj'
+        rw [DV.C06.modify_getElem ext _ i j hj' hj'']
+        by_cases hij : i = j
+        · subst hij
+          rw [if_pos rfl]
+          exact Or.inr ⟨d', by simp, hia, hir, by rw [hnot]⟩
+        · rw [if_neg hij]
+          rcases hext j hj hj'' with ⟨he, hn⟩ | ⟨d, hd, ha, hr, he⟩
+          · left
+            refine ⟨he, ?_⟩
+            intro d hd
+            rcases List.mem_append.mp hd with h | h
+            · exact hn d h
+            · have : d = d' := by simpa using h
+              rw [this]; intro ⟨ha, hr⟩
+              rw [hother j ha (fun e => hij e.symm)] at hr; cases hr
+          · exact Or.inr ⟨d, by simp [hd], ha, hr, he⟩
+      · have hany : (alive.any fun i => relB ov old i d') = true := by
+          rw [List.any_eq_true]; exact ⟨i, hia, hir⟩
+        simp [unmatched, List.filter_append, hfresh, hany]
+
+/-- **Whenever the overlap relation between the tracks that ended in the previous frame and the
+droplets of the current frame is one-to-one (and the droplets of the frame do not overlap one
+another), the tracks follow exactly that relation**: track `i` is extended by `d` iff they overlap,
+and exactly the droplets without partner start new tracks, in order. -/
+theorem overlap_one_to_one (ov : Nat → Nat → Bool) (old : List (Track τ)) (tlast : Option τ) (t : τ)
+    (ds : List Nat) (hnd : ds.Nodup)
+    (hno : ∀ d ∈ ds, ∀ d' ∈ ds, d ≠ d' → ov d d' = false)
+    (hfun : ∀ d ∈ ds, ∀ i ∈ aliveIdx old tlast, ∀ j ∈ aliveIdx old tlast,
+      relB ov old i d = true → relB ov old j d = true → i = j)
+    (hinj : ∀ i ∈ aliveIdx old tlast, ∀ d ∈ ds, ∀ d' ∈ ds,
+      relB ov old i d = true → relB ov old i d' = true → d = d') :
+    OneInv ov t (aliveIdx old tlast) old ds (stepOverlap ov old tlast t ds) := by
+  have key : ∀ (todo done : List Nat) (cur : List (Track τ)), done ++ todo = ds →
+      OneInv ov t (aliveIdx old tlast) old done cur →
+      OneInv ov t (aliveIdx old tlast) old (done ++ todo)
+        (todo.foldl (procDroplet ov (aliveIdx old tlast) t) cur) := by
+    intro todo
+    induction todo with
+    | nil => intro done cur _ h; simpa using h
+    | cons d' todo ih =>
+      intro done cur hsplit hinv
+      have hmem : ∀ x ∈ done, x ∈ ds := fun x hx => by rw [← hsplit]; simp [hx]
+      have hd' : d' ∈ ds := by rw [← hsplit]; simp
+      have hnd' : (done ++ d' :: todo).Nodup := by rw [hsplit]; exact hnd
+      have hne : ∀ x ∈ done, x ≠ d' := by
+        intro x hx e
+        subst e
+        have := List.nodup_append.mp hnd'
+        exact this.2.2 x hx x (by simp) rfl
+      have hstep := procDroplet_one ov (aliveIdx old tlast) t old done cur d'
+        (fun i hi => DV.C06.mem_aliveIdx old tlast i hi) (DV.C06.aliveIdx_nodup old tlast)
+        (fun d hd => hno d (hmem d hd) d' hd' (hne d hd))
+        (fun i hi j hj => hfun d' hd' i hi j hj)
+        (fun i hi d hd hr => by
+          by_contra hc
+          have := hinj i hi d (hmem d hd) d' hd' hr (by simpa using hc)
+          exact hne d hd this)
+        hinv
+      have := ih (done ++ [d']) _ (by simpa using hsplit) hstep
+      simpa using this
+  have h0 : OneInv ov t (aliveIdx old tlast) old [] old :=
+    ⟨old, [], by simp, rfl, fun i _ _ => Or.inl ⟨rfl, by simp⟩, by simp [unmatched]⟩
+  simpa [stepOverlap] using key ds [] old (by simp) h0
+
 /-! ### distance matching -/
 
 theorem mem_cands (D : Nat → Nat → α) (maxd : Option α) (rows cols : List Nat) (i j : Nat) :
